@@ -201,6 +201,82 @@ class Evaluator:
     def _IfExp(self, n):
         return self.ev(n.body) if self.ev(n.test) else self.ev(n.orelse)
 
+    # comprehensions over literal iterables (bounded): [f(x) for x in TABLE if p(x)]
+    def _comp(self, n, build):
+        out = []
+
+        def rec(gi, env):
+            if gi == len(n.generators):
+                sub = Evaluator(self.repo, self.module, env)
+                out.append(build(sub))
+                return
+            g = n.generators[gi]
+            it = Evaluator(self.repo, self.module, env).ev(g.iter)
+            if isinstance(it, dict):
+                it = list(it.keys())
+            if not isinstance(it, (list, tuple, set, str)) or len(it) > 5000:
+                raise NotLiteral("comprehension over a non-literal iterable")
+            for item in it:
+                e2 = dict(env)
+                self._bind(g.target, item, e2)
+                sub = Evaluator(self.repo, self.module, e2)
+                if all(sub.ev(c) for c in g.ifs):
+                    rec(gi + 1, e2)
+        rec(0, dict(self.env))
+        return out
+
+    def _bind(self, target, value, env):
+        if isinstance(target, ast.Name):
+            env[target.id] = value
+        elif isinstance(target, (ast.Tuple, ast.List)) and isinstance(value, (tuple, list)) and len(value) == len(target.elts):
+            for t, v in zip(target.elts, value):
+                self._bind(t, v, env)
+        else:
+            raise NotLiteral("comprehension target")
+
+    def _ListComp(self, n):
+        return self._comp(n, lambda sub: sub.ev(n.elt))
+
+    def _GeneratorExp(self, n):
+        return self._comp(n, lambda sub: sub.ev(n.elt))
+
+    def _SetComp(self, n):
+        return set(self._comp(n, lambda sub: sub.ev(n.elt)))
+
+    def _DictComp(self, n):
+        return dict(self._comp(n, lambda sub: (sub.ev(n.key), sub.ev(n.value))))
+
+    def _Compare(self, n):
+        left = self.ev(n.left)
+        for op, c in zip(n.ops, n.comparators):
+            right = self.ev(c)
+            ok = {ast.Eq: lambda a, b: a == b, ast.NotEq: lambda a, b: a != b, ast.In: lambda a, b: a in b, ast.NotIn: lambda a, b: a not in b,
+                  ast.Lt: lambda a, b: a < b, ast.LtE: lambda a, b: a <= b, ast.Gt: lambda a, b: a > b, ast.GtE: lambda a, b: a >= b,
+                  ast.Is: lambda a, b: a is b, ast.IsNot: lambda a, b: a is not b}.get(type(op))
+            if ok is None:
+                raise NotLiteral("comparison")
+            try:
+                if not ok(left, right):
+                    return False
+            except Exception as e:
+                raise NotLiteral(f"comparison: {e}")
+            left = right
+        return True
+
+    def _BoolOp(self, n):
+        vals = [self.ev(v) for v in n.values]
+        if isinstance(n.op, ast.And):
+            r = True
+            for v in vals:
+                r = v
+                if not v:
+                    break
+            return r
+        for v in vals:
+            if v:
+                return v
+        return vals[-1]
+
 
 def evaluate(repo, module, node, env=None):
     return Evaluator(repo, module, env).ev(node)
